@@ -518,7 +518,7 @@ PROPS["C07"] = {
     "level": "exploration",
     "rule": ("every protocol with a network runner (session set-up, agree-on-random, Gennaro and Canetti DKG over threshold and CNF "
              "policies, HJKY zero sharing, redistribution as refresh and as change of policy, Lindell22 as BIP-340 / Mina / "
-             "configurable Schnorr with 2 and 3 signers, DKLs23 with both multipliers, Lindell17 signing) run over the harness "
+             "configurable Schnorr with 2 and 3 signers, DKLs23 with both multipliers, Lindell17 signing, CGGMP21 signing on fixture aux info - P1/P3/P7 only, it reads its reader concurrently) run over the harness "
              "switch on FIXED key material, with the session seed (3 values) and the message (3 values) reused on purpose and one "
              "SHAKE stream per party as the only randomness. Per case a party position i and fresh stream seeds are drawn; every "
              "scenario x every sampling position is also enumerated. P1: changing ONLY party i's stream changes the messages of i's "
